@@ -306,7 +306,25 @@ fn case_commands_with(t: &mut Tape, st: &mut Stats, max_lines: usize) -> Verdict
     let mut user: Vec<String> = vec![];
     let n = 1 + t.len(max_lines - 1);
     for _ in 0..n {
-        match t.weighted(&[30, 1, 1, 1, 1]) {
+        match t.weighted(&[30, 1, 1, 1, 1, 1]) {
+            5 => {
+                // collections that (transitively) contain their own handle, and recursive operations on them
+                match t.below(3) {
+                    0 => script.push_str("x = array_push ${ha} ${ha}\n"),
+                    1 => script.push_str("x = map_put ${hm} self ${hm}\n"),
+                    _ => script.push_str("x = array_push ${he} ${hm}\nx = map_put ${hm} back ${he}\n"),
+                }
+                st.class("self-containing-collection");
+                if t.chance(1, 2) {
+                    let h = *t.pick_ref(&["ha", "hm", "he"]);
+                    match t.below(3) {
+                        0 => script.push_str(&format!("x = release {} ${{{}}}\n", t.pick(&["-r", "--recursive"]), h)),
+                        1 => script.push_str(&format!("x = json_encode --collection ${{{}}}\n", h)),
+                        _ => script.push_str(&format!("x = release ${{{}}}\n", h)),
+                    }
+                    st.class("recursive-operation-on-cyclic-structure");
+                }
+            }
             0 => {
                 let l = gen_line(t, &names, &mut outs, st, &user, false);
                 script.push_str(&l);
@@ -484,7 +502,7 @@ pub fn property() -> Property {
                     Tier::Thorough => Plan::Random { cases: 2_000_000, max_len: 500 },
                 },
                 case: case_commands,
-                min_classes: &[("typed-argument-list", 500_000), ("untyped-argument-list", 200_000), ("user-alias", 5000), ("user-function", 5000), ("finite-for-loop", 5000)],
+                min_classes: &[("typed-argument-list", 500_000), ("untyped-argument-list", 200_000), ("user-alias", 5000), ("user-function", 5000), ("finite-for-loop", 5000), ("recursive-operation-on-cyclic-structure", 2000)],
             },
             Section {
                 name: "commands-large",
